@@ -131,6 +131,13 @@ def run(tier, seed, replay=None):
                                             {"id": 3, "db": 1, "name": "c", "kind": "string", "n": 1, "elem": 5, "ttl": 0, "vanish": "never", "scanned": True, "passes": True},
                                             {"id": 4, "db": 1, "name": "d", "kind": "string", "n": 1, "elem": 5, "ttl": 5000, "vanish": "never", "scanned": True, "passes": True}],
                                    "dbs": [{"db": 0, "pages": [[1]]}, {"db": 1, "pages": [[2, 3], [4]]}]})
+        # a rate limit well below the key count and a lull at the source: the run still has to end with every key copied
+        if not replay:
+            for j, (qps, nk) in enumerate([(4, 14)] + ([(3, 20), (5, 11)] if thorough else [])):
+                ks = [{"id": i + 1, "db": 0, "name": "q%d" % i, "kind": "string", "n": 1, "elem": 5, "ttl": 0, "vanish": "never", "scanned": True, "passes": True} for i in range(nk)]
+                allcases[(3 + j) % nproc].insert(0, {"id": 999100 + j, "seed": seed, "pre": [], "keys": ks, "dbs": [{"db": 0, "pages": [[1, 2], list(range(3, nk + 1))]}],
+                                                    "cfg": {"scan_key_number": 3, "big_threshold": 10 ** 9, "key_exists": "none", "tdb": -1, "fdb_white": [], "fdb_black": [], "fkey_white": [],
+                                                            "fkey_black": [], "key_file": False, "target_version": "5.0.7", "qps": qps, "scan_lull_ms": 2300}})
         def one(p):
             d = sc.path("w%d" % p)
             os.makedirs(d, exist_ok=True)
